@@ -307,11 +307,21 @@ var MutAlphabet = []byte("[]{},:\"\\u01-+.eEtralsnf \x00\x01\x7f\xc3\xa9/b9x\n")
 
 // Chunks draws a partition of [0,n) into piece lengths (possibly with zero-length pieces).
 func Chunks(t *rapid.T, n int) []int {
-	mode := rapid.IntRange(0, 5).Draw(t, "chunkmode")
+	mode := rapid.IntRange(0, 6).Draw(t, "chunkmode")
 	var out []int
 	switch mode {
 	case 0:
 		return []int{n}
+	case 6: // a stuttering reader: reads that return no data and no error, then large pieces
+		c := 0
+		if n > 0 && rapid.IntRange(0, 2).Draw(t, "head") == 0 {
+			c = rapid.IntRange(1, n).Draw(t, "cut")
+			out = append(out, c)
+		}
+		for z := rapid.IntRange(1, 3).Draw(t, "zeros"); z > 0; z-- {
+			out = append(out, 0)
+		}
+		return append(out, n-c)
 	case 1, 2:
 		k := rapid.IntRange(1, 17).Draw(t, "piece")
 		for r := n; r > 0; r -= k {
